@@ -30,7 +30,12 @@ class Toks:
 
     def name(self):
         v = self.n()
-        return None if v == "~" else v
+        if v == "~":
+            return None
+        if v.startswith("%"):
+            import re
+            return re.sub(r"%([0-9a-fA-F]{2})", lambda m: chr(int(m.group(1), 16)), v[1:])
+        return v
 
     def ch(self):
         v = self.n()
